@@ -1023,6 +1023,36 @@ fn main() {
             if let Ok(full) = run_bindgen(&scratch, &plain, &plain_flags, true) {
                 inc_of.insert(case_json(&c), c.inc_h.clone());
                 oracles(&c, &run, &full, &mut st, &mut fails, &mut blob_checks, &mut rustc_queue, &mut probe_queue);
+                // with namespaces as modules the user supplies the blocklisted definitions through `--module-raw-line`
+                // (one trait-less stub of the C size / alignment per blocklisted record, in the module of its namespace);
+                // the bindings must compile — also when every generated item of a namespace is blocklisted
+                let ns_hidden = run.dump.items.iter().any(|it| it.kind == "module" && it.blocklisted);
+                if c.namespaces_on && !c.blocked.is_empty() && !ns_hidden {
+                    let mut extra = c.flags.clone();
+                    let mut ok = true;
+                    let mut done: BTreeSet<String> = BTreeSet::new();
+                    for it in &run.dump.items {
+                        if it.kind != "type" || !it.blocklisted { continue; }
+                        let k = it.type_kind.as_deref().unwrap_or("");
+                        if !matches!(k, "Comp" | "Enum" | "Alias") || it.type_name.is_none() || it.name.contains('<') { continue; }
+                        if !done.insert(it.name.clone()) { continue; }
+                        let mut comps: Vec<&str> = it.name.split("::").collect();
+                        let ty = comps.pop().unwrap_or("");
+                        // a record nested in a class has no module of its own
+                        if comps.iter().any(|cmp| !c.prog.namespaces.iter().any(|n| n.split("::").any(|x| x == *cmp))) { ok = false; break; }
+                        let module = std::iter::once("root").chain(comps.iter().copied()).collect::<Vec<_>>().join("::");
+                        match it.layout {
+                            Some((sz, a)) if a.is_power_of_two() => { extra.push("--module-raw-line".into()); extra.push(module); extra.push(format!("#[repr(C, align({a}))] pub struct {ty} {{ _b: [u8; {sz}] }}")); }
+                            _ => { ok = false; break; }
+                        }
+                    }
+                    if ok && extra.len() > c.flags.len() {
+                        if let Ok(run2) = run_bindgen(&scratch, &c, &extra, false) {
+                            st.bump("module-raw-line-stub-runs");
+                            rustc_queue.push((run2.bindings.clone(), full.bindings.clone(), case_json(&c)));
+                        }
+                    }
+                }
             }
             if fails.len() > 20 {
                 break;
